@@ -205,6 +205,15 @@ func (o *onceFun) run(ctx context.Context) error {
 		if Verbose() {
 			logger.Println("Running dependency:", displayName(o.fn.Name()))
 		}
+		defer func() {
+			if v := recover(); v != nil {
+				if err, ok := v.(error); ok {
+					o.err = err
+				} else {
+					o.err = fmt.Errorf("%v", v)
+				}
+			}
+		}()
 		o.err = o.fn.Run(ctx)
 	})
 	return o.err
